@@ -23,6 +23,8 @@ def count_of_layout(L):
         sz = L[1]
         if sz[0] == 'app' and sz[1] == 'mul':
             return sz[2] if not (sz[2][0] == 'sym' and sz[2][1].startswith('sizeof')) else sz[3]
+        if L[2] == C(1):
+            return sz           # byte elements: the size is the count
         return None
     if L[0] == 'app' and L[1] in ('payload', 'vproj') and L[2][0] == 'app' and L[2][1] == 'layout_array':
         return L[2][2]
@@ -44,20 +46,49 @@ def split_write_target(I, t):
     return from_lin(base, c), idx
 
 
+def cursor_write(I, r, b, w, base_ptr):
+    """the write target is a loop-carried cursor: initial value the reserved base, step + size_of::<T>() on every back edge"""
+    tgt = w.args[0]
+    for (bid, h), rec in r.loops.items():
+        if bid != b['id']:
+            continue
+        for l, symv in rec['sym'].items():
+            if symv == tgt and rec['init'].get(l) == base_ptr and rec['step']:
+                steps = [st['env'].get(l) for st in rec['step']]
+                if all(sv is not None and sv[0] == 'app' and sv[1] == 'add' and symv in sv[2:] and any(x[0] == 'sym' and str(x[1]).startswith('sizeof') for x in sv[2:]) for sv in steps):
+                    return True
+    return False
+
+
+def range_item(t):
+    """t is the item of a `for i in 0..n` iteration (Some payload of Range::next)"""
+    return isinstance(t, tuple) and t and t[0] == 'app' and t[1] in ('vproj', 'payload') and t[2][0] == 'call' and t[2][1].endswith('::next')
+
+
 def run(ctx, config='rel-all'):
     db = ctx.db(config)
     A = arena.analyse(ctx, config)
     ctx.assume("that bytes of a live block are never written by a later operation follows from the C01 discipline (disjoint blocks) plus R5 here; it is not independently observed",
                "closure call counts under panics are C16's concern")
     n1 = 0
-    for name in SLICE_METHODS:
+    # the analysed initialisers: the seven known ones plus any other public slice/str-returning arena method that performs raw
+    # initialisation in its own frame (or in a helper extracted from it) -- e.g. after an inlining refactor
+    targets = list(SLICE_METHODS)
+    for b0 in db.fn_bodies():
+        m0 = b0['meta']
+        out0 = m0.get('output') or ''
+        if b0['kind'] == 'assoc_fn' and m0.get('impl_adt') == 'Bump' and m0.get('pub') and not m0.get('impl_trait') and '&' in out0 and 'mut' in out0 and ('[' in out0 or 'str' in out0) and m0['name'] not in targets:
+            I0, r0 = arena.run_fn(ctx, b0['id'], config)
+            if any(e.is_own() and (e.kind == 'copy' or (e.kind == 'call' and e.callee in ('core::ptr::write', 'core::ptr::write_bytes'))) for e in r0.events):
+                targets.append(m0['name'])
+    for name in targets:
         b = arena.bump_method(db, name)
         if b is None:
             ctx.anchor_missing('R1', 'Bump::' + name)
             continue
         I, r = arena.run_fn(ctx, b['id'], config)
         fn = 'Bump::' + name
-        own = [e for e in r.events if len(e.stack) == 1]
+        own = [e for e in r.events if e.is_own()]
         resv = [e for e in own if e.kind == 'call' and e.callee and 'NonNull<u8>' in ((I.db.by_path.get(e.callee) or {}).get('meta', {}).get('output') or '') and len(e.args) > 1]
         slices = [e for e in own if e.kind == 'slice']
         if not resv or not slices:
@@ -94,6 +125,14 @@ def run(ctx, config='rel-all'):
                     bound_ok = field_of(e.args[0], 'start') == C(0) and field_of(e.args[0], 'end') == nret
                 if e.kind == 'call' and e.callee and e.callee.endswith('<impl [T]>::iter') and e.args and app('len', e.args[0]) == nret:
                     bound_ok = True
+            if not bound_ok:
+                # counter loop `while i < len { .. i += 1 }`: the written index is a loop counter (0, +1) and the write happens under i < len
+                Ls = [v for (bid, h), v in r.loops.items()]
+                for rec in Ls:
+                    for l, symv in rec['sym'].items():
+                        if rec['init'].get(l) == C(0) and rec['step'] and all(st_['env'].get(l) == app('add', symv, C(1)) for st_ in rec['step']):
+                            if any(f in (('lt', symv, nret),) for f in w.state.facts):
+                                bound_ok = True
             if bound_ok:
                 ctx.ok('R1', '%s: the fill loop runs over exactly 0..%s' % (fn, show(nret)[:30]), 'loop bound term')
             else:
@@ -120,8 +159,21 @@ def run(ctx, config='rel-all'):
                     v = w.args[1]
                     if src_item is not None and v == ('app', 'proj', src_item, idx[3][:-1] + '1'):
                         ctx.ok('R2', '%s: slot i receives the i-th cloned element (index and value from the same enumerate item)' % fn, show(idx)[:60])
+                    elif v[0] == 'call' and v[1].endswith('Clone::clone') and idx in subterms(v) and ('param', 2) in subterms(v):
+                        ctx.ok('R2', '%s: slot i receives a clone of src[i] (the write offset is the index used to read the source)' % fn, show(idx)[:60])
                     else:
                         ctx.violation('R2', fn, 'index-agreement', 'write offset %s and value %s do not come from the same enumerate() item' % (show(idx)[:50], show(v)[:50]), w.span)
+            elif cursor_write(I, r, b, w, base_ptr):
+                # cursor form: `slot` starts at the reserved base and advances by one element per iteration of the loop over 0..n;
+                # by induction iteration k writes base + k * size_of::<T>() and the callback of that iteration gets k
+                uc = [e for e in r.events if e.kind == 'usercall']
+                val = w.args[1]
+                okc = len(uc) == 1 and r.events.index(uc[0]) < r.events.index(w) and any(isinstance(t, tuple) and t and t[0] == 'call' and t[1] == '<callable>' for t in subterms(val)) \
+                    and range_item(uc[0].args[0] if uc[0].args else None)
+                if okc:
+                    ctx.ok('R2', '%s: a cursor starting at the reserved base advances one element per iteration of 0..n; slot k receives f(k)' % fn, 'loop init / step of the cursor')
+                else:
+                    ctx.violation('R2', fn, 'index-agreement', 'the cursor-based fill does not pass the iteration index of 0..n to the callback once per slot', w.span)
             else:
                 ctx.violation('R2', fn, 'write-target', 'element writes do not target reserved_base + i * size_of::<T>() (%s)' % show(w.args[0])[:80], w.span)
         else:
@@ -139,13 +191,13 @@ def run(ctx, config='rel-all'):
             continue
         name = m['name']
         I, r = arena.run_fn(ctx, b['id'], config)
-        own = [e for e in r.events if len(e.stack) == 1]
+        own = [e for e in r.events if e.is_own()]
         raw = [e for e in own if e.kind in ('slice', 'copy') or (e.kind == 'call' and e.callee in ('core::ptr::write', 'core::ptr::write_bytes'))]
         n6 += 1
-        if name in CORE:
+        if name in CORE or name in targets:
             ctx.ok('R6', 'Bump::%s is an analysed initialiser' % name, 'R1/R2')
             continue
-        fw = [e for e in own if e.kind == 'call' and 'Bump::<MIN_ALIGN>::' in (e.callee or '') and not e.callee.endswith('is_last_allocation')]
+        fw = [e for e in own if e.kind == 'call' and 'Bump::<MIN_ALIGN>::' in (e.callee or '') and not e.callee.endswith('is_last_allocation') and '{closure' not in e.callee]
         if raw:
             ctx.violation('R6', 'Bump::' + name, 'raw-initialisation', 'Bump::%s performs raw initialisation itself (%s) but is not among the initialisers whose extents and indices are checked; only forwards to %s are expected here' % (name, sorted({e.kind if e.kind != 'call' else e.callee.split('::')[-1] for e in raw}), sorted(CORE)[:4]), raw[0].span)
         elif len(fw) != 1:
@@ -175,7 +227,7 @@ def run(ctx, config='rel-all'):
                 ctx.anchor_missing('R7', 'Bump::' + name)
                 continue
             I, r = arena.run_fn(ctx, b['id'], config)
-            fw = [e for e in r.events if len(e.stack) == 1 and e.kind == 'call' and (e.callee or '').endswith('alloc_slice_fill_with')]
+            fw = [e for e in r.events if e.is_own() and e.kind == 'call' and (e.callee or '').endswith('alloc_slice_fill_with')]
             cl = [x for x in db.fn_bodies() if x['kind'] == 'closure' and x['id'].startswith(b['id'] + '::{closure')]
             okv = len(fw) == 1 and fw[0].args[0] == P1 and len(cl) >= 1
             if okv and kind != 'iter':
@@ -204,10 +256,12 @@ def run(ctx, config='rel-all'):
             ctx.anchor_missing('R7', 'Bump::' + name)
             continue
         I, r = arena.run_fn(ctx, b['id'], config)
-        fw = [e for e in r.events if len(e.stack) == 1 and e.kind == 'call' and (e.callee or '').endswith('::' + core)]
+        fw = [e for e in r.events if e.is_own() and e.kind == 'call' and (e.callee or '').endswith('::' + core)]
         n7 += 1
         if len(fw) == 1 and fw[0].args == [P1, P2_]:
             ctx.ok('R7', 'Bump::%s copies exactly the bytes of the source string' % name, 'forward to %s(self, src.as_bytes())' % core)
+        elif name in targets and any(e.is_own() and e.kind == 'copy' and e.args[0] == P2_ and e.args[2] == app('len', P2_) for e in r.events):
+            ctx.ok('R7', 'Bump::%s copies exactly the bytes of the source string' % name, 'own memcpy of src.len() bytes from src (extent checked by R1)')
         else:
             ctx.violation('R7', 'Bump::' + name, 'bytes', 'Bump::%s must copy exactly src.as_bytes() through %s' % (name, core), b.get('span'))
     for name, core in (('alloc', 'alloc_with'), ('try_alloc', 'try_alloc_with')):
@@ -216,7 +270,7 @@ def run(ctx, config='rel-all'):
             ctx.anchor_missing('R7', 'Bump::' + name)
             continue
         I, r = arena.run_fn(ctx, b['id'], config)
-        fw = [e for e in r.events if len(e.stack) == 1 and e.kind == 'call' and (e.callee or '').endswith('::' + core)]
+        fw = [e for e in r.events if e.is_own() and e.kind == 'call' and (e.callee or '').endswith('::' + core)]
         cl = [x for x in db.fn_bodies() if x['kind'] == 'closure' and x['id'].startswith(b['id'] + '::{closure')]
         okv = len(fw) == 1 and fw[0].args[0] == P1 and len(cl) == 1
         if okv:
@@ -228,6 +282,10 @@ def run(ctx, config='rel-all'):
         else:
             ctx.violation('R7', 'Bump::' + name, 'value', 'Bump::%s must store exactly the value it was given' % name, b.get('span'))
     ctx.floor('R7', n7, 12, 'thin forwards checked for what they put into the slots')
+    # ---- R8 the crate's own clients of the arena keep the allocation contract (a stale capacity / pointer / short reserve
+    # makes a collection write into its neighbours)
+    from . import clients
+    clients.check(ctx, config, 'R8')
     # value methods: the value is written exactly at the reserved pointer, once
     for name in VALUE_METHODS:
         b = arena.bump_method(db, name)
@@ -236,7 +294,7 @@ def run(ctx, config='rel-all'):
             continue
         I, r = arena.run_fn(ctx, b['id'], config)
         fn = 'Bump::' + name
-        resv = [e for e in r.events if len(e.stack) == 1 and e.kind == 'call' and e.callee and 'NonNull<u8>' in ((I.db.by_path.get(e.callee) or {}).get('meta', {}).get('output') or '')]
+        resv = [e for e in r.events if e.is_own() and e.kind == 'call' and e.callee and 'NonNull<u8>' in ((I.db.by_path.get(e.callee) or {}).get('meta', {}).get('output') or '')]
         ws = [e for e in r.events if e.kind == 'call' and e.callee == 'core::ptr::write' and not (e.args[1][0] == 'agg' and e.args[1][1] == 'ChunkFooter')]
         ucs = [e for e in r.events if e.kind == 'usercall']
         base_ptr = None
